@@ -94,6 +94,8 @@ def check(case):
         check_runner(res, case)
     elif kind == "abort":
         check_abort(res, case)
+    elif kind == "autoretry":
+        check_autoretry(res, case)
     else:
         raise ValueError("unknown case kind %r" % kind)
     return res
@@ -273,6 +275,20 @@ def check_abort(res, case):
         res.fail("C01.verdict.false-green", "the run was aborted (%s) but reports success" % how)
 
 
+def check_autoretry(res, case):
+    """behave.contrib.scenario_autoretry (outlines patched as a whole or row by row): the verdict is the one of
+    the final attempts -- a scenario that still fails in its last attempt makes the run fail."""
+    from . import c03
+    base, run = c03.autoretry_run(case)
+    expected = c03.final_attempt_program(base, case["attempts"])
+    ref = refmodel.simulate(runcheck.resolve_faults(expected))
+    runcheck.check_verdict(res, "C01.autoretry.verdict", ref, run)
+    res.label("autoretry", "autoretry:verdict:%s" % ("failed" if ref.failed else "passed"))
+    if case.get("whole_outlines"):
+        res.label("autoretry:outline-as-a-whole")
+    res.nontrivial = True
+
+
 def check_runner(res, case):
     """Standard Runner on a scratch project (paths, environment.py, steps directory, file parsing)."""
     from .. import disk
@@ -355,6 +371,11 @@ def explore(rec):
     rec.hyp("runner-route", run_case_st(max_features=2, typed=True, cfg=gen.cfg_st(flags=("stop", "dry_run", "wip_flag"))).map(
         lambda c: dict(c, kind="runner")), 1500 if quick else 30000)
     rec.hyp("aborted-runs", abort_case_st(), 1500 if quick else 30000)
+    from . import c03
+    rec.hyp("autoretry", st.builds(lambda p, n, w: {"kind": "autoretry", "program": c03.strip_skip(p), "attempts": n,
+                                                    "whole_outlines": w},
+                                   c03.act_program(allow_bg_acts=False, with_interrupt=False), st.integers(2, 3),
+                                   st.booleans()), 700 if quick else 15000)
     rec.hyp("wip-flag", run_case_st(max_features=2, cfg=gen.cfg_st(flags=("wip_flag", "wip_flag", "dry_run"))),
             800 if quick else 15000)
 
@@ -363,7 +384,8 @@ def required_labels(tier):
     return ["verdict:failed", "verdict:passed", "flag:stop", "flag:dry_run", "fault:hook",
             "fault:cleanup:raising", "has-deselected", "cut-short", "has-rule", "has-outline-row",
             "meta:add_pass", "meta:add_deselected", "meta:permute", "cli", "runner-route", "flag:wip_flag", "abort:step",
-            "abort:hook-abort:before_scenario", "abort:hook-interrupt:before_scenario"] + \
+            "abort:hook-abort:before_scenario", "abort:hook-interrupt:before_scenario", "autoretry",
+            "autoretry:outline-as-a-whole", "autoretry:verdict:failed", "autoretry:verdict:passed"] + \
            ["outcome:" + o for o in OUTCOMES] + ["outcome:typed", "one-text-several-step-types"]
 
 
